@@ -225,7 +225,16 @@ def gen_case(rng, row, tm, quick, force=None):
             if im["enc"] and im["size_align"] and rng.random() < 0.9:
                 im["size_align"] = rng.choice([None, 4, 16])     # the other combination is the known finding C06-encrypted-size-alignment
             gidx += 1
-        conts.append({"srk": srk, "used": used, "revoke": revoke, "fuse": rng.choice([0, 1, 255, rng.getrandbits(8)]),
+        cert = None
+        if row.get("cert") and ver == 2 and srk and (force.get("cert") or rng.random() < 0.5):
+            # certificate (only the families of AhabCertificate.get_supported_families()): the SRK signs the certificate, the
+            # certificate's key signs the container when it carries the "container" permission
+            cert = {"perm": rng.choice([["container"], ["container"], ["container", "debug"], ["debug"], ["secure_fuse", "patch_fuses"],
+                                        ["container", "debug", "secure_fuse", "return_life_cycle", "patch_fuses"]]),
+                    "fuse": rng.choice([0, 1, 255, rng.getrandbits(8)]),
+                    "uuid": rng.choice([None, rng.randbytes(16).hex()]),
+                    "permdata": rng.choice([None, None, rng.randbytes(12).hex()])}
+        conts.append({"srk": srk, "used": used, "revoke": revoke, "cert": cert, "fuse": rng.choice([0, 1, 255, rng.getrandbits(8)]),
                       "sw": rng.choice([0, 1, 65535, rng.getrandbits(16)]),
                       "gdet": rng.choice(["disabled", "enabled_eleapi", "enabled"]),
                       "check_all": rng.choice(["default", "check_all_signatures"]) if ver == 2 else None,
@@ -251,6 +260,20 @@ def case_config(case, scratch, tag):
             kt = c["srk"]
             cc["signing_key"] = f"{kd}/{kt}/srk{c['used']}_{kt}.pem"
             cc["srk_table"] = {"srk_array": [f"{kd}/{kt}/srk{i}_{kt}.pub" for i in range(4)]}
+        if c.get("cert"):
+            ct, kt = c["cert"], c["srk"]
+            ccfg = {"family": case["family"], "revision": case["revision"], "permissions": ct["perm"], "fuse_version": ct["fuse"],
+                    "public_key_0": f"{kd}/{kt}/imgkey_{kt}.pub", "signing_key_0": f"{kd}/{kt}/srk{c['used']}_{kt}.pem"}
+            if ct["uuid"]:
+                ccfg["uuid"] = "0x" + ct["uuid"]
+            if ct["permdata"]:
+                ccfg["permission_data"] = "0x" + ct["permdata"]
+            cfn = os.path.join(scratch, f"{tag}_cert{ci}.yaml")
+            with open(cfn, "w", encoding="utf-8") as fh:
+                json.dump(ccfg, fh)                                  # JSON is YAML
+            cc["certificate"] = cfn
+            if "container" in ct["perm"]:
+                cc["signing_key"] = f"{kd}/{kt}/imgkey_{kt}.pem"
         if c["blob"]:
             b = c["blob"]
             cc["blob"] = {"dek_key_size": b["size"], "dek_key": b["dek"][: b["size"] // 4], "key_identifier": b["kid"]}
@@ -302,6 +325,8 @@ def model_lines(case, ahab, with_signatures=True):
         if sb.signature and with_signatures:
             sig = sb.signature.signature_data
             lines.append("sig " + hexs(sig if sig else bytes(sb.signature.signature_provider.signature_length)))
+        if sb.certificate:
+            lines.append("cert " + hexs(sb.certificate.export()))
         if sb.blob:
             b = sb.blob
             lines.append(f"blob {b.flags} {b._size} {b.algorithm.tag} {b.mode} {b.length} {hexs(b.dek_keyblob)} {b.key_identifier} "
@@ -352,12 +377,12 @@ def real_layout(ahab):
 
 
 # ------------------------------------------------------------------------------------------------ independent signature check
-def indep_verify(kt, used, data, sig):
+def indep_verify(kt, used, data, sig, key=None):
     """Verify with `cryptography` and the key FILE the configuration named - nothing from spsdk.crypto."""
     from cryptography.exceptions import InvalidSignature
     from cryptography.hazmat.primitives import hashes, serialization
     from cryptography.hazmat.primitives.asymmetric import ec, padding, utils
-    with open(f"{keydir()}/{kt}/srk{used}_{kt}.pub", "rb") as fh:
+    with open(f"{keydir()}/{kt}/{key or f'srk{used}'}_{kt}.pub", "rb") as fh:
         raw = fh.read()
     try:
         pub = serialization.load_pem_public_key(raw)
@@ -378,10 +403,10 @@ def indep_verify(kt, used, data, sig):
         return False
 
 
-def key_params(kt, used):
+def key_params(kt, used, key=None):
     """(param1 ‖ param2) of the key file as the SRK record stores them (big endian, fixed widths)."""
     from cryptography.hazmat.primitives import serialization
-    with open(f"{keydir()}/{kt}/srk{used}_{kt}.pub", "rb") as fh:
+    with open(f"{keydir()}/{kt}/{key or f'srk{used}'}_{kt}.pub", "rb") as fh:
         raw = fh.read()
     try:
         pub = serialization.load_pem_public_key(raw)
@@ -437,6 +462,73 @@ def f_encrypted_size_alignment(case, row):
     return False
 
 
+def mark_cert_rows(rows_l):
+    from spsdk.image.ahab.ahab_certificate import AhabCertificate
+    fams = set(AhabCertificate.get_supported_families())
+    for r in rows_l:
+        r["cert"] = r["family"] in fams and 2 in r["container_types"]
+
+
+def f_cert_rsa(case):
+    """C06-cert-rsa-pss: a certificate under RSA SRKs (signed RSA-PSS, verified by AhabCertificate.verify as PKCS#1 v1.5)."""
+    return any(c.get("cert") and str(c["srk"]).startswith("rsa") for c in case["containers"])
+
+
+CERT_PERMS = {"container": 0x01, "debug": 0x02, "secure_fuse": 0x08, "return_life_cycle": 0x10, "patch_fuses": 0x40}
+
+
+def indep_cert(binary, co, cc):
+    """Independent check of the certificate at absolute offset `co` (hand transcribed from the diagram in the doc string of
+    AhabCertificate and of the SRK record / SRK data / signature blocks): header, permissions and their complement, fuse version,
+    UUID, permission data as configured; public key = the image key file; the record's hash field = hash of the SRK data block;
+    signature by the used SRK over certificate[: signature offset].  Returns None or the first reason for refusing."""
+    ct, kt = cc["cert"], cc["srk"]
+    if co + 0x28 > len(binary):
+        return "certificate header outside the file"
+    ver, length, tag, sigoff, inv, perm = struct.unpack_from("<BHBHBB", binary, co)
+    if tag != 0xAF or ver != 2:
+        return "certificate tag/version"
+    if inv != (~perm) & 0xFF:
+        return "inverted permissions are not the complement of the permissions"
+    want = 0
+    for p_ in ct["perm"]:
+        want |= CERT_PERMS[p_]
+    if perm != want:
+        return f"permissions {perm:#x} differ from the configured {want:#x}"
+    if binary[co + 8: co + 20] != bytes.fromhex(ct["permdata"] or "").ljust(12, b"\0"):
+        return "permission data differ from the configuration"
+    if binary[co + 0x14] != ct["fuse"] or binary[co + 0x15: co + 0x18] != b"\0\0\0":
+        return "fuse version / reserved bytes"
+    if binary[co + 0x18: co + 0x28] != bytes.fromhex(ct["uuid"] or "").ljust(16, b"\0"):
+        return "UUID differs from the configuration"
+    ro = co + 0x28
+    rtag, rlen = struct.unpack_from("<BH", binary, ro)
+    if rtag != 0xE1 or rlen < 12:
+        return "public key record tag/length"
+    hash_alg = binary[ro + 4]
+    do = ro + rlen
+    dver, dlen, dtag = struct.unpack_from("<BHB", binary, do)
+    if dtag != 0x5D or dlen < 8:
+        return "SRK data tag/length"
+    if do + dlen != co + sigoff:
+        return "signature offset is not the end of the public key"
+    if binary[do + 8: do + dlen] != key_params(kt, 0, key="imgkey"):
+        return "the certificate does not hold the configured image key"
+    hname = {0: "sha256", 1: "sha384", 2: "sha512"}.get(hash_alg)
+    if hname is None:
+        return "hash algorithm of the public key record"
+    dg = hashlib.new(hname, binary[do: do + dlen]).digest()
+    if binary[ro + 12: ro + rlen] != dg.ljust(rlen - 12, b"\0"):
+        return "the record's hash field is not the hash of the SRK data block"
+    so = co + sigoff
+    sver, slen, stag = struct.unpack_from("<BHB", binary, so)
+    if stag != 0xD8 or slen <= 8 or sigoff + slen != length:
+        return "certificate signature container / certificate length"
+    if not indep_verify(kt, cc["used"], binary[co: so], binary[so + 8: so + slen]):
+        return "the certificate signature does not verify under the used SRK over certificate[: signature offset]"
+    return None
+
+
 # ------------------------------------------------------------------------------------------------ the run
 class Ctx:
     pass
@@ -476,6 +568,7 @@ def _run_case(cx, case, tag):
     cx.dist["images"][nimgs] = cx.dist["images"].get(nimgs, 0) + 1
     for c in case["containers"]:
         cx.dist["srk"][str(c["srk"])] = cx.dist["srk"].get(str(c["srk"]), 0) + 1
+        cx.dist["certificates"] = cx.dist.get("certificates", 0) + (1 if c.get("cert") else 0)
 
     r = pyres(AHABImage.load_from_config, cfg, [cx.scratch])
     if not s.expect(r[0] == "ok", case, "a valid AHAB configuration is refused by load_from_config", r):
@@ -491,6 +584,12 @@ def _run_case(cx, case, tag):
     e1 = verifier_errors(v1[1])
     rexp = pyres(ahab.export)
     overfull = any(c.get("overfull") for c in case["containers"])
+    if f_cert_rsa(case) and not overfull and (e1 or rexp[0] != "ok"):
+        # open finding: the (correctly PSS-signed) RSA certificate is verified as PKCS#1 v1.5 and so reported invalid
+        narrow = all("Certificate" in x or x.endswith("Container signing/Signature #0/Signature") for x in e1) and rexp[0] in ("ok", "E:spsdk")
+        s.expect(False, case, "a valid image with an RSA certificate is reported as erroneous by verify() / refused by export()", (e1[:3], rexp[0]),
+                 finding="C06-cert-rsa-pss" if narrow else None)
+        return None
     if overfull:
         # a container that does not fit its fixed slot: the only acceptable outcome is a reported error and no export
         s.expect(bool(e1) and rexp[0] == "E:spsdk", case, "a container overlapping the next container slot is not refused", (e1, rexp[0]))
@@ -614,9 +713,20 @@ def independent_ok(cx, case, binary, rep, ahab=None, report_to=None, finding=Non
             data = binary[base: base + int(r["signed"])]
             sig = binary[so: so + sl]
             ok &= need(int(r["used"]) == cc["used"], "used SRK id in the flags differs from the configuration", r["used"])
-            good = indep_verify(cc["srk"], cc["used"], data, sig)
-            ok &= need(good, "the container signature does not verify (cryptography, key file of the configuration) over "
+            ct = cc.get("cert")
+            by_cert = bool(ct) and "container" in ct["perm"]
+            good = indep_verify(cc["srk"], cc["used"], data, sig, key="imgkey" if by_cert else None)
+            ok &= need(good, "the container signature does not verify (cryptography, key file of the configuration: the certificate's "
+                             "image key when the certificate may sign containers, else the used SRK) over "
                              "container[: signature block offset + signature offset]", {"signed_len": len(data)})
+            if ct:
+                try:
+                    why = "no certificate offset" if int(r["cert"]) == 0 else indep_cert(binary, base + int(r["sbo"]) + int(r["cert"]), cc)
+                except (struct.error, IndexError, ValueError) as exc:
+                    why = f"malformed certificate ({type(exc).__name__})"
+                ok &= need(why is None, "the certificate in the exported container fails the independent certificate check", why)
+            else:
+                ok &= need(int(r["cert"]) == 0, "a container without a configured certificate carries a certificate offset", r["cert"])
             if case["ver"] == 1:
                 ro, rl = (int(x) for x in r["rec"].split(":"))
                 rec = binary[ro: ro + rl]
@@ -643,7 +753,7 @@ def authenticated_positions(case, binary, rep):
     """byte positions whose corruption must be noticed: signed ranges of signed containers, image bytes of every entry
     (bound by the entry's hash; the entry is bound by the signature only in a signed container)."""
     reps = parse_report(rep)
-    signed, images, hdr_unsigned = [], [], []
+    signed, images, hdr_unsigned, certs = [], [], [], []
     for r, cc in zip(reps, case["containers"]):
         base = int(r["base"])
         imgs = [t.split(":") for t in r["imgs"].split(",") if t]
@@ -654,11 +764,14 @@ def authenticated_positions(case, binary, rep):
             signed.append((base, int(r["signed"])))
             so, sl = (int(x) for x in r["sigdata"].split(":"))
             signed.append((so, sl))      # the signature itself
+            if cc.get("cert") and int(r["cert"]):
+                co = base + int(r["sbo"]) + int(r["cert"])
+                certs.append((co, struct.unpack_from("<H", binary, co + 1)[0]))
         else:
             n = len(imgs)
             for i in range(n):           # hash and (for encrypted entries) IV fields of unsigned containers
                 hdr_unsigned.append((base + 16 + 128 * i + 0x20, 64))
-    return signed, images, hdr_unsigned
+    return signed, images, hdr_unsigned, certs
 
 
 def finding_for_tamper(inp, original, parsed):
@@ -682,15 +795,17 @@ def tamper(cx, case, info, budget, extra_picks=()):
     rep = cx.drv.ask(check_line(case["ver"], row, binary, deks))
     if not rep.startswith("ok:"):
         return
-    signed, images, hdru = authenticated_positions(case, binary, rep)
+    signed, images, hdru, certs = authenticated_positions(case, binary, rep)
     reps = parse_report(rep)
-    pools = [("signed", signed), ("image", images), ("hashfield", hdru)]
+    pools = [("signed", signed), ("image", images), ("hashfield", hdru), ("certificate", certs)]
     picks = list(extra_picks)
     for name, ranges in pools:
         tot = sum(l for _, l in ranges)
         if not tot:
             continue
         k = max(1, budget // 3) if name != "signed" else budget - 2 * (budget // 3)
+        if name == "certificate":
+            k = budget
         for _ in range(k):
             x = rng.randrange(tot)
             for o, l in ranges:
@@ -1118,6 +1233,115 @@ def cli_stream(cx, picks):
                      "export(config written by `nxpimage ahab parse`) is not the parsed file", (r2, first_diff(again.hex(), cli_bin.hex())))
 
 
+def cert_stream(cx):
+    """Chain of trust SRK -> certificate -> container: configurations that break one link must be refused; the stand-alone
+    certificate round-trips and its parser refuses inconsistent length / permission fields."""
+    from spsdk.exceptions import SPSDKError
+    from spsdk.image.ahab.ahab_certificate import AhabCertificate
+    from spsdk.image.ahab.ahab_image import AHABImage
+    s, rng = cx.s_cert, cx.ck.rng
+    rows = sorted((r for r in cx.rows.values() if r.get("cert")), key=lambda r: (r["revision"] != "latest", r["family"], r["revision"]))
+    if not rows:
+        return
+    kd = keydir()
+    n = 0
+    for kt in KEYTYPES[:3]:
+        row = rows[n % len(rows)]
+        case = gen_case(rng, row, "standard", True, {"ver": 2, "srk": kt, "cert": True, "ncont": 1, "nimg": 1})
+        case["containers"][0]["cert"]["perm"] = ["container", "debug"]
+        case["containers"][0]["blob"] = None
+        for im in case["containers"][0]["images"]:
+            im["enc"] = False
+        used = case["containers"][0]["used"]
+        other_kt = "ecc384" if kt != "ecc384" else "ecc256"
+        variants = [
+            ("good", None, None, True),
+            ("the certificate may sign containers but the container is signed by the SRK itself",
+             {"signing_key": f"{kd}/{kt}/srk{used}_{kt}.pem"}, None, False),
+            ("the certificate has no container permission but the container is signed by the certificate's key",
+             None, {"permissions": ["debug"]}, False),
+            ("the certificate is signed by another SRK than the used one",
+             None, {"signing_key_0": f"{kd}/{kt}/srk{(used + 1) % 4}_{kt}.pem"}, False),
+            ("the certificate's key is of another type than the SRKs",
+             {"signing_key": f"{kd}/{other_kt}/imgkey_{other_kt}.pem"}, {"public_key_0": f"{kd}/{other_kt}/imgkey_{other_kt}.pub"}, False),
+        ]
+        good_cert = None
+        for what, cpatch, certpatch, want_ok in variants:
+            n += 1
+            inp = {"case": case, "variant": what}
+            s.note(inp, nontrivial=True, cls=f"{kt}/{'good' if want_ok else 'broken-link'}")
+            cfg = case_config(case, cx.scratch, f"ct{n}")
+            cc = cfg["containers"][0]["container"]
+            if cpatch:
+                cc.update(cpatch)
+            if certpatch:
+                with open(cc["certificate"], encoding="utf-8") as fh:
+                    cj = json.load(fh)
+                cj.update(certpatch)
+                with open(cc["certificate"], "w", encoding="utf-8") as fh:
+                    json.dump(cj, fh)
+            r = pyres(AHABImage.load_from_config, cfg, [cx.scratch])
+            if r[0] != "ok":
+                s.expect(not want_ok, inp, "a valid configuration with a certificate is refused by load_from_config", r)
+                continue
+            ahab = r[1]
+            ru = pyres(ahab.update_fields)
+            rv = pyres(ahab.verify) if ru[0] == "ok" else ru
+            errs = verifier_errors(rv[1]) if rv[0] == "ok" else [canon(rv)]
+            rx = pyres(ahab.export) if ru[0] == "ok" else ru
+            if want_ok:
+                s.expect(not errs and rx[0] == "ok", inp, "a valid certificate chain is reported as erroneous", (errs[:3], rx[0]))
+                if rx[0] == "ok":
+                    good_cert = bytes(ahab.ahab_containers[0].signature_block.certificate.export())
+            else:
+                s.expect(bool(errs) and rx[0] != "ok", inp, "a broken chain of trust (" + what + ") is NOT refused by verify()/export()",
+                         (errs[:3], rx[0]))
+        if good_cert is None:
+            continue
+        # ---- the stand-alone certificate
+        inp = {"certificate": good_cert.hex()}
+        s.note(inp, nontrivial=True, cls=f"{kt}/standalone")
+        rp = pyres(AhabCertificate.parse, good_cert)
+        if s.expect(rp[0] == "ok", inp, "AhabCertificate.parse refuses an exported certificate", rp):
+            s.expect(bytes(rp[1].export()) == good_cert, inp, "AhabCertificate: export(parse(x)) != x", None)
+        (length,) = struct.unpack_from("<H", good_cert, 1)
+        for d in (8, -8, 1):
+            bad = bytearray(good_cert)
+            struct.pack_into("<H", bad, 1, length + d)
+            inp = {"certificate": good_cert.hex(), "length_field": length + d}
+            s.note(inp, nontrivial=True, cls=f"{kt}/length")
+            rp = pyres(AhabCertificate.parse, bytes(bad) + bytes(16))
+            s.expect(rp[0] != "ok", inp, "AhabCertificate.parse accepts a certificate whose length field contradicts its content", rp[0],
+                     finding="C06-cert-length-check")
+        bad = bytearray(good_cert)
+        bad[6] ^= 0x10
+        inp = {"certificate": good_cert.hex(), "inverted_permissions": bad[6]}
+        s.note(inp, nontrivial=True, cls=f"{kt}/perm")
+        rp = pyres(AhabCertificate.parse, bytes(bad))
+        s.expect(rp[0] != "ok", inp, "AhabCertificate.parse accepts permissions whose complement field does not match", rp[0])
+        if cx.drv is not None:
+            cert_model_compare(cx, rp=pyres(AhabCertificate.parse, good_cert), good=good_cert)
+
+
+def cert_model_compare(cx, rp, good):
+    """the certificate model (Model/AhabCert.lean) against the real certificate: export bytes, signed part, parse"""
+    if rp[0] != "ok":
+        return
+    c, s = rp[1], cx.s_cert
+    k = c.public_key_0
+    line = (f"certenc {c._permissions} {hexs(c.permission_data)} {c.fuse_version} {hexs(c._uuid or b'')} {k.version} {k.hash_algorithm.tag} "
+            f"{k.key_size} {k.srk_flags} {k.srk_data.srk_id} {hexs(k.srk_data.data)} {hexs(c.signature_0.signature_data)}")
+    got = cx.drv.ask(line)
+    inp = {"certificate": good.hex()}
+    s.compare((inp, "export"), "ok:" + good.hex() + " signed=" + bytes(c.get_signature_data()).hex(), got,
+              "the certificate model exports other bytes / another signed part than AhabCertificate")
+    got = cx.drv.ask("certparse " + hexs(good + bytes(8)))
+    real = (f"ok:{c.length},{c.signature_offset},{c._permissions},{hexs(c.permission_data)},{c.fuse_version},{hexs(c._uuid or b'')},"
+            f"{k.version},{k.hash_algorithm.tag},{k.key_size},{k.srk_flags},{hexs(k.crypto_params)},{k.srk_data.srk_id},{hexs(k.srk_data.data)},"
+            f"{hexs(c.signature_0.signature_data)}")
+    s.compare((inp, "parse"), real, got, "the certificate parser model reads another object than AhabCertificate.parse")
+
+
 def run(ck):
     logging.disable(logging.CRITICAL)
     ck.lean_obligations(generated=["PyFuns", "AhabConsts"])
@@ -1126,9 +1350,10 @@ def run(ck):
     cx = Ctx()
     cx.ck, cx.drv, cx.rows = ck, drv, {(r["family"], r["revision"]): r for r in rows_l}
     cx.scratch = os.environ.get("VERIF_SCRATCH") or "/tmp"
-    cx.dist = {"containers": {}, "images": {}, "srk": {}}
+    cx.dist = {"containers": {}, "images": {}, "srk": {}, "certificates": 0}
     cx.flips = 0
     cx.finding_for_tamper = finding_for_tamper
+    mark_cert_rows(rows_l)
     rng = ck.rng
     ck.assume("signatures are produced by OpenSSL through spsdk.crypto; the model takes the real signature bytes as input and the oracle "
               "verifies them with `cryptography` called directly (RSA-PSS salt = digest length, raw r||s ECDSA)",
@@ -1152,11 +1377,18 @@ def run(ck):
                             "non-trivial = distinct perturbed state")
     cx.s_fields = ck.stream("fields", "create_flags (v1/v2, every hash tag), create_meta, get_container_offset -2..6, ImageArrayEntry.parse on random "
                             "blocks, SRKTable.parse on exported tables of the four key types and their single-bit corruptions; non-trivial = distinct input")
+    cx.s_cert = ck.stream("cert", "chain of trust SRK -> certificate -> container on the certificate-capable families (ECC-256/384/521): the good "
+                          "chain and four broken links (container signed by the SRK despite the permission, by the certificate key without the "
+                          "permission, certificate signed by another SRK, certificate key of another type), the stand-alone certificate "
+                          "(parse/export round trip, wrong length field +8/-8/+1, wrong complement of the permissions) and the certificate "
+                          "model (export bytes, signed part, parse); non-trivial = distinct input")
     quick = ck.quick
     import time as _t
     tm_ = {"start": _t.time()}
     fields_stream(cx)
     tm_["fields"] = _t.time()
+    cert_stream(cx)
+    tm_["cert"] = _t.time()
     verify_stream(cx, ck.budget(1, 12))
     tm_["verify_range"] = _t.time()
     combos = [(r, tm) for r in rows_l for tm in TARGET_MEMS]
@@ -1167,6 +1399,14 @@ def run(ck):
     for row, tm in combos:
         case = gen_case(rng, row, tm, quick)
         info = run_case(cx, case, f"e{n}")
+        n += 1
+        if info:
+            infos.append((case, info))
+    cert_rows = [r for r in rows_l if r.get("cert")]
+    for i in range(ck.budget(6, 60) if cert_rows else 0):          # certificates: every key type, with and without blob
+        row = cert_rows[i % len(cert_rows)]
+        case = gen_case(rng, row, rng.choice(TARGET_MEMS), quick, {"ver": 2, "srk": KEYTYPES[i % len(KEYTYPES)], "cert": True})
+        info = run_case(cx, case, f"c{n}")
         n += 1
         if info:
             infos.append((case, info))
@@ -1218,6 +1458,8 @@ def replay(ck, data):
     cx.dist = {"containers": {}, "images": {}, "srk": {}}
     cx.flips = 0
     cx.finding_for_tamper = finding_for_tamper
+    mark_cert_rows(rows_l)
+    cx.s_cert = ck.stream("cert", "replay: the complete certificate stream")
     cx.s_export = ck.stream("export", "replay of the recorded configurations")
     cx.s_tamper = ck.stream("tamper", "replay of the recorded flips (+ a fresh sample on the same image)")
     stream = data.get("stream")
@@ -1227,6 +1469,8 @@ def replay(ck, data):
         cx.s_fields = ck.stream("fields", "replay: the complete small-function sweep")
         fields_stream(cx)
         verify_stream(cx, 1)
+    if stream == "cert" or data.get("kind") != "concrete-failure-on-implementation":
+        cert_stream(cx)
     for i, c in enumerate(data.get("cases", []) + [{"input": d.get("input")} for d in data.get("disagreements", [])]):
         inp = c.get("input")
         if isinstance(inp, list) and inp and isinstance(inp[0], dict):      # (case, op, k) of a compared query
